@@ -78,6 +78,16 @@ CLAIMED = {
         note="Lean kernel; standard axioms; site extraction by tools/extract.py; %-formatting semantics assumed.",
         technique="Lean 4 proof over extracted error-site table + strict/lenient differential on the real code",
         design="6/C16"),
+    "C11": dict(
+        category="proof",
+        text="Lean theorem C11_walk: for EVERY tree the non-recursive walker (hand model of NonRecursiveTreeWalker.__iter__ "
+             "over a zipper cursor) terminates within 2*size+1 iterations and emits exactly the recursive token stream of "
+             "the tree (invariant `remaining` + explicit decreasing measure). Model tied to the real walkers by op walk on "
+             "trees read by direct traversal from real minidom/ElementTree objects (parsed and hand-made). Lint acceptance, "
+             "rebuild and etree==dom stream equality are decided on the real code (search); their Lean theorems are pending.",
+        note="Lean kernel; standard axioms; per-backend cursor code abstracted to a zipper (correspondence only).",
+        technique="Lean 4 proof (zipper invariant + termination measure) + differential correspondence",
+        design="6/C11"),
 }
 
 PENDING_REASON = "check under construction in this round: model/theorems not yet committed (see DESIGN section 8); not claimed"
